@@ -199,11 +199,13 @@ type Parser struct {
 	currFunc  string
 	usedFuncs map[string][]string // Stores which function (key) calls which functions (values).
 	importing []string            // Stores the paths of the files which are currently being parsed.
+	imported  map[string]bool     // Stores the paths of all files which have been imported so far (shared by all import parsers).
 }
 
 func New() Parser {
 	return Parser{
 		usedFuncs: map[string][]string{},
+		imported:  map[string]bool{},
 	}
 }
 
@@ -726,11 +728,21 @@ func (p *Parser) evaluateImports(ctx context) ([]Statement, error) {
 			}
 			importParser := New()
 			importParser.importing = slices.Clone(p.importing)
+			importParser.imported = p.imported
 			importedProg, err := importParser.parse(absPath, true)
 
 			if err != nil {
 				return nil, err
 			}
+
+			// A file which is reached along several import paths (or under several aliases) is only executed once.
+			// Its function definitions are still taken over (duplicates are removed by name further down).
+			if p.imported[absPath] {
+				importedProg.body = slices.DeleteFunc(importedProg.Body(), func(stmt Statement) bool {
+					return stmt.StatementType() != STATEMENT_TYPE_FUNCTION_DEFINITION
+				})
+			}
+			p.imported[absPath] = true
 
 			if _, exists := ctx.findImport(alias); exists {
 				return nil, fmt.Errorf(`import alias "%s" already exists`, alias)
